@@ -1356,3 +1356,10 @@ impl ParserExpressionTreeDataVisualizer {
         }
     }
 }
+#[cfg(feature = "verif_hooks")]
+impl<'a> Parser<'a> {
+    /// verification hook: the precedence the expression parser assigns to the current token
+    pub fn verif_token_precedence(&self) -> ParserResult<i32> {
+        self.get_token_precedence()
+    }
+}
